@@ -132,7 +132,7 @@ EXPORT errno_t _getenv_s_chk(size_t *restrict len, char *restrict dest,
     if (unlikely(name == NULL)) {
         if (len)
             *len = 0;
-        if (likely(dest)) {
+        if (likely(dest && dmax)) {
             handle_error(dest, dmax, "getenv_s: name is null", ESNULLP);
         }
         else {
